@@ -541,7 +541,12 @@ def oracle_c14(tr, sc, rng):
         for q in types:
             if q != '_recomputed' and not q.startswith('timing'):
                 union.update(filter_stats(stats, type=q, recomputed=False))
-        allf = {k: v for k, v in filter_stats(stats, recomputed=False).items() if k.type != '_recomputed' and not k.type.startswith('timing')}
+        before = list(stats.keys())
+        ret = filter_stats(stats, recomputed=False)
+        if list(stats.keys()) != before:
+            V('filter_changes_its_input', 'filter_stats', f'filter_stats(stats, recomputed=False) removed entries from the dictionary it was given ({len(before)} entries before, {len(stats)} after)')
+            return
+        allf = {k: v for k, v in ret.items() if k.type != '_recomputed' and not k.type.startswith('timing')}
         if set(allf) != set(union):
             d = list(set(allf) ^ set(union))[0]
             VF(fbits(d.time) if d.time is not None else b'', 'filter_untyped_differs', 'filter_stats', f'filter_stats(recomputed=False) differs from the union of the per-type results, e.g. at key {tuple(d)}', type=d.type)
